@@ -66,6 +66,14 @@ class Stats:
 
 def note_distribution(st, recipe, geo, bm):
     d = st.dist
+    last = {}
+    for j, o in enumerate(recipe.get('ops', [])): last[o[0]] = j
+    if 'atm' in last and last['atm'] > last.get('surface', -1): d['late:atmosphere_type assigned on the finished geometry'] += 1
+    if 'order' in last and last['order'] > last.get('surface', -1): d['late:block_order assigned on the finished geometry'] += 1
+    if sum(1 for o in recipe.get('ops', []) if o[0] == 'surface') > 1: d['late:surfaces reassigned'] += 1
+    if ('copy_layers' in last or 'add_layers' in last) and any(getattr(c, 'default_surface', False) for c in geo.columnlist) \
+            and any(float(c.surface) != float(geo.layerlist[0].bottom) for c in geo.columnlist if getattr(c, 'default_surface', False)):
+        d['late:default-surface columns under a replaced layer structure'] += 1
     d['kind:' + recipe.get('kind', recipe['base'].get('name', recipe['base']['kind']))] += 1
     d['surface-mode:' + recipe.get('mode', '?')] += 1
     d['atmosphere_type:%d' % geo.atmosphere_type] += 1
@@ -75,7 +83,7 @@ def note_distribution(st, recipe, geo, bm):
     d['permeability_angle:' + ('0' if geo.permeability_angle == 0 else 'nonzero')] += 1
     d['tilted:' + ('yes' if (geo.gdcx or geo.gdcy) else 'no')] += 1
     ops = [o[0] for o in recipe.get('ops', [])]
-    for o in ('rotate', 'translate', 'refine', 'refine_layers', 'centres'):
+    for o in ('rotate', 'translate', 'refine', 'refine_layers', 'centres', 'copy_layers', 'add_layers', 'rename_col'):
         if o in ops: d['op:' + o] += 1
     # hypotheses of the theorems, measured on the real object
     lays = geo.layerlist
@@ -287,7 +295,7 @@ def run(ctx):
                 'the shipped irregular geometries g1..g7 (g7 and one large one in the quick tier, all in the thorough tier), column refinements of both (triangular transition columns) '
                 'and layer refinements, then rotated/translated, atmosphere type 0/1/2, block order None/layer_column/dmplex, permeability angle, GDCX/GDCY tilt, '
                 'atmosphere volume/connection, layer centres off the mid-point, explicit column surfaces (default; on a layer boundary; above the top layer; thin slivers; inside the bottom layer; sloping), '
-                'no block map / empty / partial / total block map.  A case is distinct by its recipe and non-trivial when the grid has rock blocks.')
+                'no block map / empty / partial / total block map; the configuration is also REACHED BY ASSIGNMENT on the finished geometry: atmosphere_type (35 %) and block_order (20 %) set after the surfaces, columns renamed (20 %), surfaces reassigned, the layer structure replaced by copy_layers_from / add_layers with another top elevation under default or file surfaces (30 %).  A case is distinct by its recipe and non-trivial when the grid has rock blocks.')
     ctx.trusted += ['Coq 8.16.1 kernel (coqc); vm_compute only on closed terms inside Example proofs; no native_compute; Props.v is axiom-free, PropsR.v (the same connection statements read in R with sqrt) uses the stdlib axioms of the classical reals',
                     'tools/props/c04_translate.py (AST -> expression trees; atoms are pinned source text of look-ups) and the evaluator coq/C04/Kx.v with the environments of coq/C04/KernelTie.v (which model quantity each source look-up denotes)',
                     'coq/C04/FromGeo.v: hand transcription of mulgrids.py 790-881, 1381-1455, geometry.line_projection and t2grids.py 282-318, 341-434 (validated on every run by the correspondence, not derived from the source)',
